@@ -16,8 +16,6 @@ CREATORS = set("socket socketpair accept accept4 pipe pipe2 eventfd epoll_create
                "open64 openat openat64 creat creat64 dup dup2 dup3 inotify_init inotify_init1 "
                "recvmsg mkstemp mkstemp64 mkostemp mkostemp64 signalfd timerfd_create memfd_create "
                "fcntl fcntl64 syscall kqueue socket pidfd_open".split())
-UDP_KEY = "udp_close_closes_stdio_fd"
-UDP_CASE = "D0 Li ui0:0 uo0:f0 X0 R Lc"
 PAIR = ("pipe2", "socketpair")
 
 # ---------------------------------------------------------------------------
@@ -56,6 +54,22 @@ SCENARIOS = {
     "ipc_pass": "Li gs0:1 pi0:1 po0:g0 pi1:1 po1:g1 ti2:4 w20:2 rs1:1 R ti3:0 A1:3 X0 X1 X2 X3 R Lc",
     "ipc_unclaimed": "Li gs0:1 pi0:1 po0:g0 pi1:1 po1:g1 ti2:4 ui4:4 w20:2 rs1:1 R X0 X1 X2 X4 R Lc",
     "sqpoll": "Li Lq Lz R Lc",
+    # regression case of /repo c6159bf: uv_close of a uv_udp_t wrapping descriptor 0 must not close it
+    "udp_stdio": "D0 Li ui0:0 uo0:f0 X0 R Lc",
+    # child-side descriptor shuffling of uv__process_child_init: swap, 2>&1, slots fed from lower
+    # descriptors (temporary F_DUPFD_CLOEXEC copies), stdio_count 5..9; the child reports what it holds
+    "spawn_swap": "Li sp0:h1,h0,h2:ok R X0 R Lc",
+    "spawn_2to1": "Li sp0:h0,h1,h1:ok R X0 R Lc",
+    "spawn_low5": "Li sp0:h0,h1,h2,i,h1:ok R X0 R Lc",
+    "spawn_low7": "Li pi0:0 sp1:h2,p0,h0,h1,i,h2,h0:ok R X0 X1 R Lc",
+    "spawn_low9": "Li sp0:h0,h1,h2,h0,h1,h2,i,i,h0:ok R X0 R Lc",
+    # several descriptors in one SCM_RIGHTS message, without and with an allocation failure in
+    # uv__stream_queue_fd (first uv__malloc of the queue / the uv__realloc that grows it)
+    "ipc_raw4": "Li gs0:1 pi1:1 po1:g1 gw0:4 rs1:1 R X1 R gu0 Lc",
+    "ipc_raw4_oom": "Li gs0:1 pi1:1 po1:g1 gw0:4 rs1:1 O1 R X1 R gu0 Lc",
+    "ipc_raw3_claim_oom": "Li gs0:1 pi1:1 po1:g1 gw0:3 rs1:1 O1 R ti2:0 A1:2 X1 X2 R gu0 Lc",
+    "ipc_raw11": "Li gs0:1 pi1:1 po1:g1 gw0:11 rs1:1 R ti2:0 A1:2 ti3:0 A1:3 X1 X2 X3 R gu0 Lc",
+    "ipc_raw11_oom_grow": "Li gs0:1 pi1:1 po1:g1 gw0:11 rs1:1 O2 R X1 R gu0 Lc",
     # uv__stream_open fails for the second stdio container (its pipe handle is already open):
     # regression case of /repo 4ad4719 (double close)
     "spawn_busy_stream": "Li gp0:1 pi0:0 pi1:0 po1:g0 sp2:p0,p1,h:ok R X0 X1 X2 R gu1 Lc",
@@ -197,7 +211,11 @@ def model_input(parsed, fixed=1):
                     h, n, j = t[1:], 0, i + 1
                     while j < len(events) and events[j].startswith("+cmsg"):
                         n += 1; j += 1
-                    mops.append("rf:%s:%d" % (h, n)); pseudo.append(True)
+                    # descriptors closed at once: uv__stream_queue_fd could not allocate (recorded answer)
+                    drop, k2 = 0, j
+                    while k2 < len(events) and (events[k2] == "Q" or re.match(r"^x\d+$", events[k2])):
+                        drop += events[k2] != "Q"; k2 += 1
+                    mops.append("rf:%s:%d:%d" % (h, n, n - min(drop, n))); pseudo.append(True)
                     i = j
                     continue
                 i += 1
@@ -235,7 +253,7 @@ def canon_events(events, rn):
             kind = "x" if m.group(1) == "xforeign" else m.group(1)
             closes.append(kind + rn.close(int(m.group(2))))
             continue
-        if t[0] in "KMC" or re.match(r"^[ka]\d+$", t):
+        if t[0] in "KMCQ" or re.match(r"^[ka]\d+$", t):
             continue
         flush()
         if t[0] == "+":
@@ -321,11 +339,6 @@ def monitor_line(line):
                 return "descriptor %s created by libuv is open without FD_CLOEXEC when %s returns" % (t[5:], op)
             if t.startswith("!"):
                 return "harness anomaly %s in %s" % (t, op)
-            if t.startswith("xforeign") and op.startswith("cl:") and htype.get(op.split(":")[1]) == "u" \
-                    and int(t[8:]) <= 2:
-                known = "KNOWN:" + UDP_KEY      # uv__udp_close has no stdio test (udp.c:56-64)
-                user.discard(int(t[8:]))
-                continue
             if t.startswith("xforeign"):
                 return "libuv closed descriptor %s which it does not own (in %s)" % (t[8:], op)
             if t.startswith("xbad"):
@@ -333,9 +346,8 @@ def monitor_line(line):
             if t.startswith("xlost"):
                 return "descriptor %s disappeared without a close (in %s)" % (t[5:], op)
             if t[0] == "C":
-                got = t[1:].split(",")
-                nstd = len(op.split(":")[2].split(",")) if op.startswith("sp:") else 4
-                want = [str(i) for i in range(4)]
+                got, _, want = t[1:].partition("/")
+                got, want = got.split(","), want.split(",")
                 if got != want:
                     return "spawned child inherited descriptors %s, expected only its stdio %s" % (got, want)
             m = re.match(r"^[xc](\d+)$", t)
@@ -438,18 +450,6 @@ def main():
         corpus = os.path.join(vf.VERIF, "corpus", "C15", "scripts.txt")
         if os.path.exists(corpus):
             named += [("corpus%d" % i, l.strip()) for i, l in enumerate(open(corpus)) if l.strip() and l[0] != "#"]
-    # uv_udp_open(0) + uv_close closes descriptor 0 (observation, notes/C15.md): part of the case set
-    # once its key is listed in known_findings.json; until then probed and recorded only
-    if not chk.replay:
-        if chk.match_known(UDP_KEY) is not None:
-            named.append(("udp_stdio", UDP_CASE))
-        else:
-            po = run_impl([UDP_CASE])
-            r0 = monitor_line(po[0]) if po else "no output"
-            chk.cov["observation_" + UDP_KEY] = {"script": UDP_CASE, "reproduced": r0 == "KNOWN:" + UDP_KEY,
-                                                 "monitor": r0, "impl": (po[0][:400] if po else "")}
-            if r0 == "KNOWN:" + UDP_KEY:
-                print("note: observation %s reproduced (not listed in known_findings.json, see notes/C15.md)" % UDP_KEY)
     base = [s for _, s in named]
     base_out = run_impl(base)
     if len(base_out) != len(base):
@@ -514,127 +514,6 @@ def main():
     chk.sample({"case": cases[1], "impl": raw[cases[1]][:300], "model_input": minputs[1][:300]})
     if len(cases) > len(base):
         chk.sample({"case": cases[len(base)], "impl": raw[cases[len(base)]][:300]})
-
-    chk.finish(rule="build failed")
-    # every descriptor-creating import of the fresh library must be wrapped
-    r = vf.sh("nm -u %s | awk '$1==\"U\"{print $2}' | sort -u" % lib, shell=True)
-    imports = set(r.stdout.split())
-    unwrapped = sorted((imports & CREATORS) - set(WRAPS))
-    chk.cov["creating_imports"] = sorted(imports & CREATORS)
-    if unwrapped:
-        chk.violation("libuv imports descriptor-creating calls the harness does not wrap: %s" % unwrapped,
-                      {"kind": "harness", "imports": unwrapped}, found_input=False)
-    ddir = os.path.join(chk.scratch.dir, "d")
-    os.makedirs(ddir, exist_ok=True)
-    env = dict(os.environ, UV_USE_IO_URING="1", UV_THREADPOOL_SIZE="1")
-
-    def run_impl(scripts):
-        out, rc, err = vf.run_lines([exe, ddir], scripts, shards=vf.JOBS, env=env, timeout=900)
-        return out
-
-    if chk.replay:
-        import json
-        rp = json.load(open(chk.replay))
-        scripts = [rp.get("case", "Li Lc")]
-        named = [("replay", scripts[0])]
-    else:
-        named = list(SCENARIOS.items()) + random_scenarios(chk.rng, 40 if thorough else 10)
-        corpus = os.path.join(vf.VERIF, "corpus", "C15", "scripts.txt")
-        if os.path.exists(corpus):
-            named += [("corpus%d" % i, l.strip()) for i, l in enumerate(open(corpus)) if l.strip() and l[0] != "#"]
-    # uv_udp_open(0) + uv_close closes descriptor 0 (observation, notes/C15.md): part of the case set
-    # once its key is listed in known_findings.json; until then probed and recorded only
-    if not chk.replay:
-        if chk.match_known(UDP_KEY) is not None:
-            named.append(("udp_stdio", UDP_CASE))
-        else:
-            po = run_impl([UDP_CASE])
-            r0 = monitor_line(po[0]) if po else "no output"
-            chk.cov["observation_" + UDP_KEY] = {"script": UDP_CASE, "reproduced": r0 == "KNOWN:" + UDP_KEY,
-                                                 "monitor": r0, "impl": (po[0][:400] if po else "")}
-            if r0 == "KNOWN:" + UDP_KEY:
-                print("note: observation %s reproduced (not listed in known_findings.json, see notes/C15.md)" % UDP_KEY)
-    base = [s for _, s in named]
-    base_out = run_impl(base)
-    if len(base_out) != len(base):
-        chk.violation("harness produced %d lines for %d scripts" % (len(base_out), len(base)),
-                      {"kind": "harness", "out": base_out[-3:]}, found_input=False)
-        chk.finish(rule="harness failed")
-    # second round: fail the k-th creation, for every k of every scenario
-    cases = list(base)
-    origin = {s: n for n, s in named}
-    kinds_hit = {}
-    for (name, s), line in zip(named, base_out):
-        p = parse_impl(line)
-        if p is None:
-            continue
-        # index of the process-wide lock pipe: its failure is abort() (DESIGN section 3 item 23, C16)
-        k, skip = 0, set()
-        seen_lock = False
-        for events, op, rc in p[1]:
-            for kind, cx, fds, cls in attempts(events):
-                if kind in ("late", "cmsg"):
-                    continue
-                k += 1
-                if op.startswith("Li") and kind == "pipe2" and not seen_lock:
-                    skip.add(k); seen_lock = True
-                kinds_hit[kind] = kinds_hit.get(kind, 0) + 1
-        errs = ["e", "n", "m"] if (thorough or name in ("loop", "tcp_accept", "spawn", "ipc_pass")) else \
-            [chk.rng.choice(["e", "e", "n", "m"])]
-        for i in range(1, k + 1):
-            if i in skip:
-                continue
-            for e in errs:
-                c = "F%d%s %s" % (i, e, s)
-                cases.append(c)
-                origin[c] = name
-    impl = base_out + run_impl(cases[len(base):])
-    raw = dict(zip(cases, impl))
-    # The model variant is fixed: the code as it is (m_fixed = true, after /repo 9298bc0 and 4ad4719).
-    # A tree in which the backend_fd leak or the spawn double close is back disagrees with it and
-    # fails the monitor: a plain VIOLATION with the failing script.
-    fixed = 1
-    chk.cov["model_variant"] = "current code (run true)"
-    minputs, pseudos, icanon = [], [], []
-    for c, line in zip(cases, impl):
-        p = parse_impl(line)
-        if p is None:
-            minputs.append(""); pseudos.append([]); icanon.append("IMPL: " + line[:200])
-            continue
-        mi, ps = model_input(p, fixed)
-        minputs.append(mi); pseudos.append(ps); icanon.append(canon_impl(p))
-    mout, rc2, err2 = vf.run_lines([model], minputs, shards=8)
-    if len(mout) != len(cases):
-        mout = (mout + [""] * len(cases))[:len(cases)]
-    mcanon = [canon_model(l, ps) for l, ps in zip(mout, pseudos)]
-
-    def monitor(case, _):
-        return monitor_line(raw[case])
-    vf.diff_cases(chk, "descriptor ledger: libuv (wrapped creations/closes, table scans) = Model/FdLedger.v",
-                  cases, icanon, mcanon, monitor)
-    chk.cov["scenarios"] = len(named)
-    chk.cov["fault_cases"] = len(cases) - len(base)
-    chk.cov["creation_kinds_exercised"] = kinds_hit
-    chk.sample({"case": cases[1], "impl": raw[cases[1]][:300], "model_input": minputs[1][:300]})
-    if len(cases) > len(base):
-        chk.sample({"case": cases[len(base)], "impl": raw[cases[len(base)]][:300]})
-
-    # the fixed variant of the model must balance on exactly the cases where the current code leaks
-    leak = [i for i, c in enumerate(cases) if (monitor_line(raw[c]) or "").startswith("KNOWN:")]
-    if leak:
-        fin = []
-        for i in leak[:50]:
-            fin.append("1" + minputs[i][1:])
-        fo, _, _ = vf.run_lines([model], fin)
-        bad = 0
-        for i, l in zip(leak, fo):
-            tab = l.split(" T ", 1)[1].split() if " T " in l else ["?"]
-            if any(t.split(":")[1] == "L" for t in tab if ":" in t):
-                bad += 1
-        chk.cov["fixed_variant_balanced_on_leak_cases"] = "%d/%d" % (len(fo) - bad, len(fo))
-        if bad:
-            chk.violation("the fixed model variant still holds loop descriptors after uv_loop_close",
-                          {"kind": "model", "case": cases[leak[0]]}, found_input=False)
 
     chk.finish(
         level="proof",
